@@ -161,6 +161,7 @@ func cmdCheck(args []string) int {
 	var gens []*Gen
 	funcsUnder := []map[string]any{}
 	var genErrs []string
+	stale := map[string][]string{} // function label -> why its contract could not be bound to the current code
 	trusted := map[string]bool{}
 	unknownExt := map[string]int{}
 	abstracted := map[string]int{}
@@ -277,7 +278,12 @@ func cmdCheck(args []string) int {
 					g.errorf("%s: contract names loop %d but the function has %d loops", label, cl.Loop, len(g.loops))
 				}
 			}
-			genErrs = append(genErrs, g.errs...)
+			if len(g.errs) > 0 {
+				// the contract no longer fits the function (a loop, variable or call it names is gone):
+				// not a violation by itself. What could still be generated is solved; a failure in
+				// this function counts as VIOLATION only if a replay witness fails on the real code.
+				stale[label] = append(stale[label], g.errs...)
+			}
 			gens = append(gens, g)
 			n := 0
 			for _, b := range fn.Blocks {
@@ -338,7 +344,7 @@ func cmdCheck(args []string) int {
 		}
 		allObls = f
 	}
-	if len(allObls) == 0 {
+	if len(allObls) == 0 && len(stale) == 0 {
 		return undecided("no obligations generated for " + *prop + " (vacuous check)")
 	}
 	// solve
@@ -413,6 +419,7 @@ func cmdCheck(args []string) int {
 	}
 
 	var reports []oblReport
+	staleFailed := map[string][]string{}
 	var toolErrs []string
 	discharged, violations, knownHits := 0, 0, 0
 	solverSecs := 0.0
@@ -448,6 +455,10 @@ func cmdCheck(args []string) int {
 			}
 		} else if r.Verdict == "error" {
 			toolErrs = append(toolErrs, o.Name+": "+strings.Join(r.Log, "; "))
+		} else if len(stale[o.Func]) > 0 {
+			// decided below, by replay, together with the function's unbindable clauses
+			staleFailed[o.Func] = append(staleFailed[o.Func], o.Name+" ("+r.Verdict+")")
+			rep.Verdict = "stale-contract:" + r.Verdict
 		} else {
 			violations++
 			exit = 1
@@ -461,6 +472,43 @@ func cmdCheck(args []string) int {
 			fmt.Printf("  %-70s %-8s %-7s %.2fs %v\n", o.Name, rep.Verdict, r.Solver, r.Secs, r.Log)
 		}
 		reports = append(reports, rep)
+	}
+	// functions whose contract is out of date: run the replay witnesses registered for them
+	var staleUndecided []string
+	{
+		var sl []string
+		for l := range stale {
+			sl = append(sl, l)
+		}
+		sort.Strings(sl)
+		ranTest := map[string]bool{}
+		for _, l := range sl {
+			reason := strings.Join(stale[l], "; ")
+			e := findReplay(*prop, l+"/")
+			confirmed := false
+			out := ""
+			if e != nil && !ranTest[e.Test] {
+				ranTest[e.Test] = true
+				confirmed, out = runReplayTest(e, map[string]string{})
+			}
+			if confirmed {
+				violations++
+				exit = 1
+				os.MkdirAll(replayDir, 0o755)
+				rp := filepath.Join(replayDir, "stale__"+fileSafe(l)+".json")
+				rb, _ := json.MarshalIndent(map[string]any{"property": *prop, "obligation": l + "/contract-binding", "kind": "stale contract, replay witnesses",
+					"contract_binding_errors": stale[l], "failed_obligations_in_function": staleFailed[l], "replayed_on_code": true,
+					"failing_input": "replay test " + e.Test + ":\n" + out}, "", " ")
+				os.WriteFile(rp, rb, 0o644)
+				fmt.Printf("VIOLATION property=%s replay=%s\n", *prop, rp)
+				fmt.Printf("  %s changed shape (%s); the property's replay witnesses fail on the real code: %s\n", l, firstLine(reason), firstLine(failLine(out)))
+			} else {
+				staleUndecided = append(staleUndecided, l+": "+reason)
+			}
+		}
+	}
+	if len(staleUndecided) > 0 && exit == 0 {
+		return undecided("contract cannot be bound to the changed code and no replay witness fails on it: " + strings.Join(staleUndecided, " | "))
 	}
 	if len(toolErrs) > 0 && exit == 0 {
 		return undecided("solver rejected generated queries (tool failure, not a violation): " + strings.Join(toolErrs, " | "))
@@ -693,6 +741,16 @@ func isAbstractTarget(label string) bool {
 		strings.HasPrefix(label, "var:") || label == "dynamic" || (!strings.HasPrefix(label, "(") && strings.Contains(label, ".") && !strings.Contains(label, "$"))
 }
 
+func failLine(out string) string {
+	for _, ln := range strings.Split(out, "\n") {
+		t := strings.TrimSpace(ln)
+		if strings.Contains(t, "_test.go:") {
+			return t
+		}
+	}
+	return out
+}
+
 func writeReplay(path, prop string, r *Result, where string) string {
 	suffix := " no-failing-input-found"
 	rep := map[string]any{
@@ -731,6 +789,16 @@ func writeReplay(path, prop string, r *Result, where string) string {
 				rep["replay_attempt"] = detail
 			}
 		} else if ok, detail := tryReplay(prop, r, mv); ok {
+			rep["replayed_on_code"] = true
+			rep["failing_input"] = detail
+			suffix = ""
+		} else if detail != "" {
+			rep["replay_attempt"] = detail
+		}
+	}
+	if r.Verdict != "sat" && r.Obl.Kind != "regex" {
+		// no model: the registered replay test still carries its own witnesses
+		if ok, detail := tryReplay(prop, r, map[string]string{}); ok {
 			rep["replayed_on_code"] = true
 			rep["failing_input"] = detail
 			suffix = ""
